@@ -186,3 +186,51 @@ contract(_RT, params=_SAVE_PARAMS, returns="any", props=["C04"],
          modifies=["ghost.disk"],
          notes="theorem over the two proved contracts (callers are checked against callee contracts): save establishes "
                "load's precondition and load returns save's arguments")
+
+
+# ---- Calibrator.create_checkpoint: the folder holds the calibrator's state (checked against save's contract) --------
+import re as _re  # noqa: E402
+
+CA = "black_it/calibrator.py"
+klass("SearchSpace", fields={"parameters_bounds": "arr2[real]", "parameters_precision": "arr1[real]"})
+_SRC = {"parameters_bounds": "self.param_grid.parameters_bounds", "parameters_precision": "self.param_grid.parameters_precision",
+        "real_data": "self.real_data", "ensemble_size": "self.ensemble_size", "N": "self.N", "D": "self.D",
+        "convergence_precision": "self.convergence_precision", "verbose": "self.verbose", "saving_file": "self.saving_folder",
+        "initial_random_seed": "self.random_state", "random_generator_state": "self.random_generator.bit_generator.state",
+        "model_name": "self.model.__name__", "scheduler": "self.scheduler", "loss_function": "self.loss_function",
+        "current_batch_index": "self.current_batch_index", "n_sampled_params": "self.n_sampled_params", "n_jobs": "self.n_jobs",
+        "params_samp": "self.params_samp", "losses_samp": "self.losses_samp", "series_samp": "self.series_samp",
+        "batch_num_samp": "self.batch_num_samp", "method_samp": "self.method_samp"}
+
+
+def of_self(clause):
+    """A clause of save's contract (over save's parameters) as a clause over the calibrator's attributes."""
+    def sub(m):
+        return _SRC[m.group(0)]
+    return _re.sub(r"(?<![\w'.])(" + "|".join(sorted(_SRC, key=len, reverse=True)) + r")(?![\w'])", sub, clause)
+
+
+CKPT_ENSURES = [of_self(e) for e in SAVE_ENSURES]
+_CKPT_PREFIX = of_self(_PREFIX)
+contract(f"{CA}::Calibrator.create_checkpoint", params={"file_name": "any"}, props=["C04", "C14"],
+         defs={"_same_run_prefix": ([], _CKPT_PREFIX)}, labels=_LABELS,
+         ensures=CKPT_ENSURES,
+         ghost_ensures=["ghost.saved_index == self.current_batch_index", "ghost.saved_n == self.n_sampled_params"],
+         modifies=["ghost.disk", "ghost.saved_index", "ghost.saved_n"],
+         notes="one checkpoint folder is modelled (the folder named by file_name / saving_folder); files are "
+               "identified by their name inside it")
+
+
+# ---- C04 (last clause) / C14: when calibrate() returns with a saving folder set, the folder holds the state it returned
+# with.  The clauses are create_checkpoint's own post-conditions, carried by the loop invariant of calibrate.
+from pyvc.api import REG  # noqa: E402
+
+_CORE_KEYS = ("'current_batch_index'", "'n_sampled_params'", "'random_generator_state'", "scheduler_pickled",
+              "loss_function_pickled", "'losses_samp'", "'batch_num_samp'", "'method_samp'", "params_samp_")
+CKPT_CORE = [e for e in CKPT_ENSURES if any(k in e for k in _CORE_KEYS)]
+_cal = REG["contracts"][f"{CA}::Calibrator.calibrate"]
+_cal.ensures += [f"implies(self.saving_folder is not None and self.current_batch_index - old(self.current_batch_index) >= 1, {e})"
+                 for e in CKPT_CORE]
+_cal.modifies.append("ghost.disk")
+REG["invariants"][(f"{CA}::Calibrator.calibrate", 1)].inv += [
+    f"implies(self.saving_folder is not None and b >= 1, {e})" for e in CKPT_CORE]
